@@ -19,6 +19,7 @@ RULE = ("toggle histories: an object (any of the 4 classes) receives a random se
         "rev(msb0-model(rev(operands), same positions)), under msb0 the plain model (so behaviour after "
         "switching back is judged too). plus pack/unpack/read/peek order cases. key = (mode, op, argument "
         "shape incl. sign of step, alignment, length bucket); non-trivial = lsb0 step on non-empty content")
+AMBIENT = ['bytealigned']
 ANCHORS = ['offset_slice_indices_lsb0', 'BitStore.getindex_lsb0', 'BitStore.getslice_lsb0',
            'BitStore.getslice_withstep_lsb0', 'BitStore.setitem_lsb0', 'BitStore.delitem_lsb0', 'BitStore.invert_lsb0',
            'Bits._find_lsb0', 'Bits._rfind_lsb0', 'Bits._findall_lsb0', 'BitArray._append_lsb0', 'BitArray._replace',
